@@ -1,7 +1,7 @@
 ---------------------------- MODULE Trace_StaticPath ----------------------------
 (* Validates request/response traces recorded from the real StaticFileHandler against
    StaticPath.tla.  One ndjson line per trace:
-     {"id":n, "cfg":{"dflt":b,"outside":b},
+     {"id":n, "cfg":{"dflt":b,"outside":b,"spell":s},
       "ev":[{"a":"request","args":[method, raw units],"obs":{"kind":..,"file":..},
              "twin":{..}, "code":c, "code2":c2}]}
    obs is the projection of the response of the tree named by cfg.outside, twin / code2 the
@@ -16,7 +16,7 @@ Ev == Traces[tid].ev
 TraceInit ==
     /\ tid \in 1..Len(Traces)
     /\ l = 1
-    /\ InitWith([dflt |-> Traces[tid].cfg.dflt, outside |-> Traces[tid].cfg.outside])
+    /\ InitWith([dflt |-> Traces[tid].cfg.dflt, outside |-> Traces[tid].cfg.outside, spell |-> Traces[tid].cfg.spell])
 IsEvent(a) == l <= Len(Ev) /\ Ev[l].a = a /\ l' = l + 1 /\ UNCHANGED tid
 Bind == /\ Proj' = Ev[l].obs
         /\ Ev[l].twin = Ev[l].obs
